@@ -614,8 +614,8 @@ func (self *Parser) assignExpression(start errors.Location, lhs ast.Expression) 
 func (self *Parser) callArgs() (argsRet ast.CallArgs, err *errors.Error) {
 	startLoc := self.CurrentToken.Span.Start
 
-	// skip opening parenthesis
-	if err := self.next(); err != nil {
+	// skip opening parenthesis (which must be there: `spawn f x);` is not a call)
+	if err := self.expect(lexer.LParen); err != nil {
 		return ast.CallArgs{}, err
 	}
 
